@@ -26,10 +26,17 @@ use std::rc::Rc;
 pub struct VL(pub L);
 
 pub const VAR: L = 0;
-const BIN: L = 10; // + 0..=8: add mul sub and or xor shl shr div
-const UN: L = 30; // + 0..=1: neg not
-const GEN: L = 100; // + code*4 + outs
+// a multi-sorted signature: the operator chosen depends on the operand types
+const BIN: L = 10; // + k + 16 * (3 * left type + right type), k in 0..=8: add mul sub and or xor shl shr div
+const UN: L = 200; // + k + 16 * operand type, k in 0..=1: neg not
+const GEN: L = 400; // + code*4 + outs
 const CONST: L = 1000; // + c
+fn bin_label(k: L, a: L, b: L) -> L {
+    BIN + k + 16 * (3 * (a % 3) + (b % 3))
+}
+fn un_label(k: L, a: L) -> L {
+    UN + k + 16 * (a % 3)
+}
 
 impl HasVar for VL {
     fn var() -> VL {
@@ -48,7 +55,7 @@ macro_rules! has_bin {
     ($tr:ident, $f:ident, $k:expr) => {
         impl $tr<L, VL> for VL {
             fn $f(a: L, b: L) -> (L, VL) {
-                (res_label($k, a, b), VL(BIN + $k))
+                (res_label($k, a, b), VL(bin_label($k, a, b)))
             }
         }
     };
@@ -64,22 +71,22 @@ has_bin!(HasShr, shr, 7);
 has_bin!(HasDiv, div, 8);
 impl HasNeg<L, VL> for VL {
     fn neg(a: L) -> (L, VL) {
-        (a, VL(UN))
+        (a, VL(un_label(0, a)))
     }
 }
 impl HasNot<L, VL> for VL {
     fn not(a: L) -> (L, VL) {
-        ((a + 1) % 3, VL(UN + 1))
+        ((a + 1) % 3, VL(un_label(1, a)))
     }
 }
 
 /// meaning of a non-variable hyperedge label
 pub fn interp(l: L, x: &[u64], n_out: usize) -> Vec<u64> {
-    if (BIN..BIN + 9).contains(&l) {
+    if (BIN..UN).contains(&l) {
         // every binary operator of the test signature is deliberately non-commutative (the left
         // operand is rotated first), so that transposed operands change the meaning
         let (a, b) = (x[0].rotate_left(1) ^ 0x5, x[1]);
-        return vec![match l - BIN {
+        return vec![match (l - BIN) % 16 {
             0 => a.wrapping_add(b),
             1 => a.wrapping_mul(b),
             2 => a.wrapping_sub(b),
@@ -97,11 +104,8 @@ pub fn interp(l: L, x: &[u64], n_out: usize) -> Vec<u64> {
             }
         }];
     }
-    if l == UN {
-        return vec![x[0].wrapping_neg()];
-    }
-    if l == UN + 1 {
-        return vec![!x[0]];
+    if (UN..GEN).contains(&l) {
+        return vec![if (l - UN) % 16 == 0 { x[0].wrapping_neg() } else { !x[0] }];
     }
     if l >= CONST {
         return vec![(l - CONST) as u64];
@@ -234,8 +238,8 @@ fn direct(c: &VarCase, input: &[u64]) -> Vec<u64> {
     val[..input.len()].copy_from_slice(input);
     for (i, s) in c.steps.iter().enumerate() {
         match s {
-            Step::Bin { op, a, b } => val[base[i]] = interp(BIN + *op as L, &[val[*a], val[*b]], 1)[0],
-            Step::Un { op, a } => val[base[i]] = interp(UN + *op as L, &[val[*a]], 1)[0],
+            Step::Bin { op, a, b } => val[base[i]] = interp(bin_label(*op as L, 0, 0), &[val[*a], val[*b]], 1)[0],
+            Step::Un { op, a } => val[base[i]] = interp(un_label(*op as L, 0), &[val[*a]], 1)[0],
             Step::Const { c, .. } => val[base[i]] = *c,
             Step::Gen { code, args, out_labels } => {
                 let xs: Vec<u64> = args.iter().map(|v| val[*v]).collect();
@@ -250,6 +254,39 @@ fn direct(c: &VarCase, input: &[u64]) -> Vec<u64> {
     c.outs.iter().map(|v| val[*v]).collect()
 }
 
+/// the type (node label) of every value and the label of every applied operator, as the expression
+/// written prescribes them
+fn expected_labels(c: &VarCase) -> (Vec<L>, Vec<L>) {
+    let base = value_bases(c);
+    let mut ty = vec![0 as L; n_values(c)];
+    ty[..c.in_labels.len()].copy_from_slice(&c.in_labels);
+    let mut ops = vec![];
+    for (i, s) in c.steps.iter().enumerate() {
+        match s {
+            Step::Bin { op, a, b } => {
+                ty[base[i]] = res_label(*op as L, ty[*a], ty[*b]);
+                ops.push(bin_label(*op as L, ty[*a], ty[*b]));
+            }
+            Step::Un { op, a } => {
+                ty[base[i]] = if *op == 0 { ty[*a] } else { (ty[*a] + 1) % 3 };
+                ops.push(un_label(*op as L, ty[*a]));
+            }
+            Step::Const { c: k, label } => {
+                ty[base[i]] = *label;
+                ops.push(CONST + *k as L);
+            }
+            Step::Gen { code, out_labels, .. } => {
+                for (k, l) in out_labels.iter().enumerate() {
+                    ty[base[i] + k] = *l;
+                }
+                ops.push(GEN + *code as L * 4 + out_labels.len() as L);
+            }
+            _ => {}
+        }
+    }
+    (ty, ops)
+}
+
 struct Built {
     result: Result<OpenHypergraph<L, VL>, ()>,
     recovered: Option<OpenHypergraph<L, VL>>,
@@ -258,6 +295,8 @@ struct Built {
     invariant: Option<String>,
     input_edges: Vec<EdgeId>,
     out_edges: Vec<EdgeId>,
+    /// the variable hyperedge of every value
+    value_edges: Vec<EdgeId>,
 }
 
 /// run the builder under one linear extension
@@ -268,6 +307,7 @@ fn build_under(c: &VarCase, order: &[usize], leak: Option<usize>) -> Built {
     let invariant: RefCell<Option<String>> = RefCell::new(None);
     let input_edges: RefCell<Vec<EdgeId>> = RefCell::new(vec![]);
     let out_edges: RefCell<Vec<EdgeId>> = RefCell::new(vec![]);
+    let value_edges: RefCell<Vec<EdgeId>> = RefCell::new(vec![]);
     let res = var::build(|st: &Rc<RefCell<OpenHypergraph<L, VL>>>| {
         let mut vars: Vec<Option<Var<L, VL>>> = vec![None; nv];
         let mut uses = vec![0usize; nv]; // targets the var edge of each value must have so far
@@ -368,6 +408,7 @@ fn build_under(c: &VarCase, order: &[usize], leak: Option<usize>) -> Built {
             }
         }
         *out_edges.borrow_mut() = c.outs.iter().map(|v| vars[*v].as_ref().unwrap().edge_id).collect();
+        *value_edges.borrow_mut() = vars.iter().map(|v| v.as_ref().map_or(EdgeId(usize::MAX), |v| v.edge_id)).collect();
         let ins: Vec<Var<L, VL>> = (0..c.in_labels.len()).map(|i| vars[i].clone().unwrap()).collect();
         let outs: Vec<Var<L, VL>> = c.outs.iter().map(|v| vars[*v].clone().unwrap()).collect();
         (ins, outs)
@@ -383,7 +424,7 @@ fn build_under(c: &VarCase, order: &[usize], leak: Option<usize>) -> Built {
             }
         }
     };
-    Built { result, recovered, recovery_failed, invariant: invariant.into_inner(), input_edges: input_edges.into_inner(), out_edges: out_edges.into_inner() }
+    Built { result, recovered, recovery_failed, invariant: invariant.into_inner(), input_edges: input_edges.into_inner(), out_edges: out_edges.into_inner(), value_edges: value_edges.into_inner() }
 }
 
 fn lax_to_plain(t: &OpenHypergraph<L, VL>) -> Plain {
@@ -509,6 +550,24 @@ fn run_var(ex: &mut Exec, c: &VarCase) -> Result<(), Violation> {
         }
         if term.hypergraph.edges.len() - non_var != n_values(c) {
             return viol("C19:term:variable-count", format!("[{}] {} variable hyperedges for {} variables", ctx, term.hypergraph.edges.len() - non_var, n_values(c)));
+        }
+        // every value carries the type the expression gives it; every operator is the one the
+        // signature prescribes for the operand types
+        let (want_ty, mut want_ops) = expected_labels(c);
+        for (v, e) in b.value_edges.iter().enumerate() {
+            if e.0 >= term.hypergraph.adjacency.len() {
+                return viol("C19:term:variable-missing", format!("[{}] value {} has no variable hyperedge in {:?}", ctx, v, term));
+            }
+            let adj = &term.hypergraph.adjacency[e.0];
+            if let Some(n) = adj.sources.iter().chain(adj.targets.iter()).find(|n| term.hypergraph.nodes[n.0] != want_ty[v]) {
+                return viol("C19:term:wrong-node-type", format!("[{}] value {} has type {} in the expression but node {:?} of its variable is labelled {} in {:?}", ctx, v, want_ty[v], n, term.hypergraph.nodes[n.0], term));
+            }
+        }
+        let mut got_ops: Vec<L> = term.hypergraph.edges.iter().map(|l| l.0).filter(|l| *l != VAR).collect();
+        got_ops.sort_unstable();
+        want_ops.sort_unstable();
+        if got_ops != want_ops {
+            return viol("C19:term:wrong-operators", format!("[{}] the term's operator labels {:?} are not the ones the expression applies {:?}", ctx, got_ops, want_ops));
         }
         // interfaces: declared inputs and outputs, in order
         if term.sources.len() != c.in_labels.len() || term.targets.len() != c.outs.len() {
@@ -699,7 +758,7 @@ fn gen_lax_term(r: &mut Rng) -> LaxTerm {
     let mut edges = vec![];
     for _ in 0..r.range(0, 4) {
         let is_var = r.chance(2, 3);
-        let l = if is_var { VAR } else { BIN + r.below(3) as L };
+        let l = if is_var { VAR } else { bin_label(r.below(3) as L, 0, 0) };
         let side = |r: &mut Rng, uniform_label: Option<L>| -> Vec<usize> {
             if n == 0 {
                 return vec![];
